@@ -490,7 +490,7 @@ def run(rep):
     rep.assumptions = ["INV: queued receive times on the 1us grid, FIFO-monotone, aligned with q_msgs; ticks consecutive; _prev_recv_sc = last queued receive time",
                        "floats as reals; round(x,6) = round-half-up to the 1us grid; phases on the 1us grid (push_expected_blocking rounds them first) within [0, 0.5] s",
                        "simulated clock; delays >= 0 (contract of DelayDistribution.sample, C15)",
-                       "BUFFER x skip ties: the BUFFER branch ignores `skip`; the oracle for BUFFER is the documented expected-time rule (no skip distinction)"]
+                       "BUFFER connections: the expected-time rule and the arrival rule are both required (for skipped connections: arrival strictly before the step start)"]
     rep.stubs = ["_submit -> recorder", "log -> no-op", "_jit_sample -> fresh non-negative delays", "_jit_update_input_state -> list model (InputState.push itself: engine B)", "throttle disabled (real_time_factor 0)"]
     obs = pmap("props.c03", "worker", cfgs, rep.tier)
     icfg = [dict(W=1, g=1), dict(W=2, g=1), dict(W=2, g=3), dict(W=3, g=2)] + ([dict(W=4, g=2), dict(W=1, g=3)] if rep.tier == "thorough" else [])
